@@ -3,6 +3,7 @@ package scen
 import (
 	ipfslog "berty.tech/go-ipfs-log"
 	"berty.tech/go-ipfs-log/entry"
+	"berty.tech/go-orbit-db/stores/operation"
 	cid "github.com/ipfs/go-cid"
 )
 
@@ -23,3 +24,5 @@ func toLogEntries(es []*entry.Entry) []ipfslog.Entry {
 	}
 	return out
 }
+
+func parseOp(e ipfslog.Entry) (operation.Operation, error) { return operation.ParseOperation(e) }
